@@ -7,8 +7,11 @@
 (*   internal/fsm: Prepare = simplify (DFS, simplifySelf loop, the         *)
 (*                 "expanded" set of fix 08da7e9) + sortTransitions        *)
 (*   internal/fsm: apply = depth-first backtracking with an explicit call  *)
-(*                 stack, the leading -- drop, the terminal test, the      *)
-(*                 idle-cycle cut of fix 0f4c4bd                           *)
+(*                 stack, the leading -- drop, the terminal test, and the  *)
+(*                 set of (state, arguments, options-ended) configurations *)
+(*                 already entered (each is explored once: cycles of       *)
+(*                 non-consuming matches are cut, failed configurations    *)
+(*                 are not explored again)                                 *)
 (*   internal/matcher: opt / options (ExcludedOpts) / arg / optsEnd        *)
 (* One action per loop iteration / recursion step of the Go code.          *)
 (* Checked against RefSemantics (AgreesWithRef) and for termination        *)
@@ -62,8 +65,9 @@ MatchM(m, args, ro, env) == MMatch(P, FixGroupEnvExcl, m, args, ro, env)
 VARIABLES si, env, argv, G, root, phase,
           sstack, visited, expanded,      \* simplify
           astack, ret, steps,             \* apply
+          seen,                           \* configurations <<state, args, options-ended>> apply was already called on
           hist                            \* history: the calls of apply that reached their matchers, in order: <<state, args, options-ended>>
-vars == <<si, env, argv, G, root, phase, sstack, visited, expanded, astack, ret, steps, hist>>
+vars == <<si, env, argv, G, root, phase, sstack, visited, expanded, astack, ret, steps, seen, hist>>
 
 Alphabet == SeqToSet(In.alphabet)
 RECURSIVE SeqsUpTo(_)
@@ -75,7 +79,7 @@ Init == /\ si \in DOMAIN In.specs
         /\ LET c == Compile(In.specs[si].cst) IN G = c.g /\ root = c.root
         /\ phase = "simplify"
         /\ sstack = <<[s |-> root, i |-> 0, n |-> Len(G.tr[root])]>> /\ visited = {root} /\ expanded = {}
-        /\ astack = <<>> /\ ret = "none" /\ steps = 0 /\ hist = <<>>
+        /\ astack = <<>> /\ ret = "none" /\ steps = 0 /\ seen = {} /\ hist = <<>>
 
 Top(st) == st[Len(st)]
 Pop(st) == SubSeq(st, 1, Len(st) - 1)
@@ -89,7 +93,7 @@ SimplifyVisit ==
      /\ LET n == G.tr[f.s][f.i + 1].n IN
         IF n \in visited THEN /\ sstack' = SetTop(sstack, [f EXCEPT !.i = @ + 1]) /\ UNCHANGED visited
         ELSE /\ sstack' = Append(SetTop(sstack, [f EXCEPT !.i = @ + 1]), [s |-> n, i |-> 0, n |-> Len(G.tr[n])]) /\ visited' = visited \cup {n}
-  /\ UNCHANGED <<si, env, argv, G, root, phase, expanded, astack, ret, steps, hist>>
+  /\ UNCHANGED <<si, env, argv, G, root, phase, expanded, astack, ret, steps, seen, hist>>
 
 FirstEps(trs) == LET S == {i \in 1..Len(trs) : trs[i].m.k = "eps"} IN IF S = {} THEN 0 ELSE CHOOSE i \in S : \A j \in S : i <= j
 HasT(trs, t) == \E i \in 1..Len(trs) : trs[i] = t
@@ -114,7 +118,7 @@ SimplifySelf ==
                 /\ LET src == IF nx = f.s THEN removed ELSE G.tr[nx] IN
                    G' = [G EXCEPT !.tr[f.s] = AddMissing(removed, src, 1), !.term[f.s] = @ \/ G.term[nx]]
                 /\ expanded' = expanded \cup {nx} /\ UNCHANGED sstack
-  /\ UNCHANGED <<si, env, argv, root, phase, visited, astack, ret, steps, hist>>
+  /\ UNCHANGED <<si, env, argv, root, phase, visited, astack, ret, steps, seen, hist>>
 
 StableSort(trs) == LET Q(p) == SelectSeq(trs, LAMBDA t : Prio(t.m) = p) IN Q(1) \o Q(2) \o Q(8) \o Q(9) \o Q(10)
 
@@ -123,8 +127,8 @@ SimplifyDone ==
   /\ phase = "simplify" /\ sstack = <<>>
   /\ G' = [G EXCEPT !.tr = [i \in 1..Len(G.tr) |-> StableSort(G.tr[i])]]
   /\ phase' = "apply"
-  /\ astack' = <<[s |-> root, args |-> argv, ro |-> FALSE, b |-> <<>>, stage |-> "enter", ms |-> <<>>, mi |-> 0, idle |-> {}]>>
-  /\ UNCHANGED <<si, env, argv, root, sstack, visited, expanded, ret, steps, hist>>
+  /\ astack' = <<[s |-> root, args |-> argv, ro |-> FALSE, b |-> <<>>, stage |-> "enter", ms |-> <<>>, mi |-> 0]>>
+  /\ UNCHANGED <<si, env, argv, root, sstack, visited, expanded, ret, steps, seen, hist>>
 
 RECURSIVE Collect(_, _, _, _, _)
 Collect(trs, i, args, ro, e) ==
@@ -137,7 +141,8 @@ Enter ==
   /\ phase = "apply" /\ astack # <<>> /\ ret = "none"
   /\ LET f == Top(astack) IN
      /\ f.stage = "enter"
-     /\ IF FixEpsLoop /\ <<f.s, f.ro>> \in f.idle THEN
+     /\ seen' = seen \cup {<<f.s, f.args, f.ro>>}
+     /\ IF FixEpsLoop /\ <<f.s, f.args, f.ro>> \in seen THEN
            /\ astack' = Pop(astack) /\ ret' = "false"
         ELSE IF ~FixTrailingDD /\ G.term[f.s] /\ Len(f.args) = 0 THEN
            /\ ret' = "true" /\ UNCHANGED astack
@@ -148,14 +153,13 @@ Enter ==
                 /\ ret' = "true" /\ UNCHANGED astack
              ELSE
                 /\ astack' = SetTop(astack, [f EXCEPT !.args = args2, !.ro = ro2, !.stage = "try", !.mi = 1,
-                                                    !.ms = Collect(G.tr[f.s], 1, args2, ro2, env),
-                                                    !.idle = @ \cup {<<f.s, f.ro>>}])
+                                                    !.ms = Collect(G.tr[f.s], 1, args2, ro2, env)])
                 /\ UNCHANGED ret
   /\ steps' = steps + 1
   /\ hist' = LET f == Top(astack)
                  drop == Len(f.args) > 0 /\ ~f.ro /\ IsDD(f.args[1])
                  args2 == IF drop THEN Tail(f.args) ELSE f.args
-                 reaches == /\ ~(FixEpsLoop /\ <<f.s, f.ro>> \in f.idle)
+                 reaches == /\ ~(FixEpsLoop /\ <<f.s, f.args, f.ro>> \in seen)
                             /\ ~(~FixTrailingDD /\ G.term[f.s] /\ Len(f.args) = 0)
                             /\ ~(FixTrailingDD /\ G.term[f.s] /\ Len(args2) = 0)
                             /\ Len(G.tr[f.s]) > 0
@@ -169,10 +173,9 @@ Try ==
      /\ f.stage = "try"
      /\ IF f.mi > Len(f.ms) THEN /\ astack' = Pop(astack) /\ ret' = "false"
         ELSE LET m == f.ms[f.mi] IN
-             /\ astack' = Append(astack, [s |-> m.n, args |-> m.rem, ro |-> m.ro, b |-> m.b, stage |-> "enter", ms |-> <<>>, mi |-> 0,
-                                         idle |-> IF m.rem = f.args THEN f.idle ELSE {}])
+             /\ astack' = Append(astack, [s |-> m.n, args |-> m.rem, ro |-> m.ro, b |-> m.b, stage |-> "enter", ms |-> <<>>, mi |-> 0])
              /\ UNCHANGED ret
-  /\ UNCHANGED <<si, env, argv, G, root, phase, sstack, visited, expanded, steps, hist>>
+  /\ UNCHANGED <<si, env, argv, G, root, phase, sstack, visited, expanded, steps, seen, hist>>
 
 Return ==
   /\ phase = "apply" /\ ret # "none"
@@ -185,7 +188,7 @@ Return ==
      ELSE \* the popped frame failed: the caller tries its next match (or the whole parse failed)
         IF astack = <<>> THEN /\ phase' = "done" /\ UNCHANGED <<astack, ret>>
         ELSE /\ astack' = SetTop(astack, [Top(astack) EXCEPT !.mi = @ + 1]) /\ ret' = "none" /\ UNCHANGED phase
-  /\ UNCHANGED <<si, env, argv, G, root, sstack, visited, expanded, steps, hist>>
+  /\ UNCHANGED <<si, env, argv, G, root, sstack, visited, expanded, steps, seen, hist>>
 
 MapOfB(b) == LET vars2 == {<<b[i][1], b[i][2]>> : i \in 1..Len(b)} IN
              [v \in vars2 |-> LET sel == SelectSeq(b, LAMBDA x : <<x[1], x[2]>> = v) IN [i \in 1..Len(sel) |-> sel[i][3]]]
@@ -200,7 +203,7 @@ Emit ==
                               graph |-> IF argv = <<>> THEN [root |-> root, term |-> G.term,
                                           tr |-> [i \in 1..Len(G.tr) |-> [j \in 1..Len(G.tr[i]) |-> [k |-> G.tr[i][j].m.k, a |-> G.tr[i][j].m.a, xs |-> G.tr[i][j].m.xs, n |-> G.tr[i][j].n]]]]
                                         ELSE <<>>]))
-  /\ UNCHANGED <<si, env, argv, G, root, sstack, visited, expanded, astack, ret, steps, hist>>
+  /\ UNCHANGED <<si, env, argv, G, root, sstack, visited, expanded, astack, ret, steps, seen, hist>>
 
 Next == SimplifyVisit \/ SimplifySelf \/ SimplifyDone \/ Enter \/ Try \/ Return \/ Emit
 Spec == Init /\ [][Next]_vars /\ WF_vars(Next)
